@@ -213,6 +213,9 @@ def lossy_letter_signature(text, r):
     return {"id": "C18-letters-lossy-in-pylatexenc-tables"}
 
 
+_LONG_LIVED = {}
+
+
 def roundtrip(bib, text, eo, history=False):
     m = bib.middlewares
     M = bib.model
@@ -229,8 +232,17 @@ def roundtrip(bib, text, eo, history=False):
             return {"error_block": [type(b).__name__ for b in lib.blocks], "encoded": None, "in": "the decode/encode past of the blocks"}
         lib.blocks[0].fields[0].value = text
         lib.blocks[1].value = text
-    enc = m.LatexEncodingMiddleware(allow_inplace_modification=False, **eo).transform(lib)
-    dec = m.LatexDecodingMiddleware(allow_inplace_modification=False).transform(enc)
+    # half of the texts go through long-lived middleware objects (one per option set for the whole run), half through fresh
+    # ones: a conversion is a function of the text, not of what the object converted before
+    if len(text) % 2:
+        key = tuple(sorted(eo.items()))
+        if key not in _LONG_LIVED:
+            _LONG_LIVED[key] = (m.LatexEncodingMiddleware(allow_inplace_modification=False, **eo), m.LatexDecodingMiddleware(allow_inplace_modification=False))
+        emw, dmw = _LONG_LIVED[key]
+    else:
+        emw, dmw = m.LatexEncodingMiddleware(allow_inplace_modification=False, **eo), m.LatexDecodingMiddleware(allow_inplace_modification=False)
+    enc = emw.transform(lib)
+    dec = dmw.transform(enc)
     b0, b1 = dec.blocks[0], dec.blocks[1]
     if not isinstance(b0, M.Entry) or not isinstance(b1, M.String):
         return {"error_block": [type(b0).__name__, type(b1).__name__], "encoded": None}
